@@ -268,12 +268,24 @@ def body_enc(t, listname, protection, policy, non_ascii_only, chunks=False):
         raise
     except Exception as e:
         fail('encoder raised %s' % type(e).__name__)
-    require(NORM_CALLS == ['NFC'], 'input is not NFC-normalised exactly once')
+    # the input must be NFC-normalised; skipping the call is only acceptable when the string cannot change under NFC
+    # (every character below U+0300 is its own NFC form and composes with nothing)
+    require(NORM_CALLS == ['NFC'] or (NORM_CALLS == [] and all(ord(c) < 768 for c in t)),
+            'input is not NFC-normalised before encoding')
     if has_del and policy != 'keep':
         return False
     require(got_fail == exp_fail, 'ValueError raised iff some character has no rule and is not passed through')
     if got_fail:
         return True
+    # a second call on the same encoder object must give an equal, independent result
+    try:
+        got2 = enc.unicode_to_latex(t)
+    except Exception as e:
+        fail('second call on the same encoder raised %s' % type(e).__name__)
+    if chunks:
+        require(got2 is not got and got2.chunks == got.chunks, 'second call on the same encoder gives a different result')
+    else:
+        require(got2 == got, 'second call on the same encoder gives a different result')
     if chunks:
         require(isinstance(got, ChunkList), 'result is not an instance of latex_string_class')
         require([c for c in got.chunks if c != ''] == [c for c in exp if c != ''],
